@@ -53,11 +53,14 @@ pub type Rd = Mp4Reader<CountingStream<Cursor<Vec<u8>>>>;
 pub struct Monitor {
     pub recs: Vec<CallRec>,
     pub timing: bool,
+    /// length of the input under test: the n of calls that do not name one (to_json, summary)
+    pub default_n: u64,
 }
 
 impl Monitor {
     /// run one guarded, monitored call
     pub fn call<T>(&mut self, name: &str, stats: Option<&Rc<Stats>>, budget: u64, n: u64, is_open: bool, f: impl FnOnce() -> Result<T, String>) -> Option<T> {
+        let n = if n == 0 { self.default_n } else { n };
         if let Some(s) = stats {
             s.reset();
             s.budget_ops.set(budget);
@@ -317,7 +320,7 @@ fn open_counting(bytes: &[u8], budget: u64) -> (CountingStream<Cursor<Vec<u8>>>,
 
 pub fn exercise(bytes: &[u8], cx: &Context) -> Exercise {
     let mut ex = Exercise::default();
-    let mut mon = Monitor { recs: Vec::new(), timing: cx.timing };
+    let mut mon = Monitor { recs: Vec::new(), timing: cx.timing, default_n: bytes.len() as u64 };
     let n = bytes.len() as u64;
     let open_budget = OPS_PER_BYTE * n + OPS_CONST;
     // 1. open as a complete file
@@ -333,7 +336,7 @@ pub fn exercise(bytes: &[u8], cx: &Context) -> Exercise {
         for seg in &cx.segments {
             let sn = seg.len() as u64;
             let (s2, st2) = open_counting(seg, OPS_PER_BYTE * sn + OPS_CONST);
-            let fr = mon.call("read_fragment_header(segment against input)", Some(&st2), OPS_PER_BYTE * sn + OPS_CONST, sn, true, || r.read_fragment_header(s2, sn).map_err(|e| e.to_string()));
+            let fr = mon.call("read_fragment_header(segment against input)", Some(&st2), OPS_PER_BYTE * sn + OPS_CONST, sn + n, true, || r.read_fragment_header(s2, sn).map_err(|e| e.to_string()));
             if let Some(mut fr) = fr {
                 use_reader(&mut mon, &mut fr, &st2, sn, &mut ex, "seg:");
             }
